@@ -800,7 +800,11 @@ pub fn format_function_call_stmt(
 /// Functions which are used to only format a block within a statement
 /// These are used for range formatting
 pub(crate) mod stmt_block {
-    use crate::{context::Context, formatters::block::format_block, shape::Shape};
+    use crate::{
+        context::{Context, FormatNode},
+        formatters::block::format_block,
+        shape::Shape,
+    };
     #[cfg(feature = "luau")]
     use full_moon::ast::luau::TypeFunction;
     use full_moon::ast::{
@@ -817,27 +821,34 @@ pub(crate) mod stmt_block {
             .fields()
             .pairs()
             .map(|pair| {
-                pair.to_owned().map(|field| match field {
-                    Field::ExpressionKey {
-                        brackets,
-                        key,
-                        equal,
-                        value,
-                    } => Field::ExpressionKey {
-                        brackets,
-                        key: format_expression_block(ctx, &key, shape),
-                        equal,
-                        value: format_expression_block(ctx, &value, shape),
-                    },
-                    Field::NameKey { key, equal, value } => Field::NameKey {
-                        key,
-                        equal,
-                        value: format_expression_block(ctx, &value, shape),
-                    },
-                    Field::NoKey(expression) => {
-                        Field::NoKey(format_expression_block(ctx, &expression, shape))
+                pair.to_owned().map(|field| {
+                    // A field under `-- stylua: ignore` is left as written, including any blocks nested inside it
+                    if let FormatNode::Skip = ctx.should_format_node(&field) {
+                        return field;
                     }
-                    other => panic!("unknown node {:?}", other),
+
+                    match field {
+                        Field::ExpressionKey {
+                            brackets,
+                            key,
+                            equal,
+                            value,
+                        } => Field::ExpressionKey {
+                            brackets,
+                            key: format_expression_block(ctx, &key, shape),
+                            equal,
+                            value: format_expression_block(ctx, &value, shape),
+                        },
+                        Field::NameKey { key, equal, value } => Field::NameKey {
+                            key,
+                            equal,
+                            value: format_expression_block(ctx, &value, shape),
+                        },
+                        Field::NoKey(expression) => {
+                            Field::NoKey(format_expression_block(ctx, &expression, shape))
+                        }
+                        other => panic!("unknown node {:?}", other),
+                    }
                 })
             })
             .collect();
